@@ -19,7 +19,7 @@ import (
 // C09 (counter side): week boundaries are computed and honoured consistently.
 
 func c09SetDir() string {
-	dir := vtmp("c09-")
+	dir := vfVtmp("c09-")
 	telemetry.Default = telemetry.NewDir(dir)
 	os.MkdirAll(telemetry.Default.LocalDir(), 0o777)
 	return dir
@@ -246,13 +246,13 @@ func c09Malformed(t *testing.T) {
 			now = time.Unix(day*86400, 0).UTC().Add(c09TimesOfDay[int(off)%4])
 			desc := "missing"
 			if sp != nil {
-				desc = fmt.Sprintf("%q", trunc40(*sp))
+				desc = fmt.Sprintf("%q", vfTrunc40(*sp))
 			}
 			res.Eval()
 			res.Distinct(fmt.Sprintf("%d/%d", si, verifref.Weekday(day)))
 			var begin, end time.Time
 			var err error
-			pv, stack := guarded(func() { begin, end, err = c09CallSpan() })
+			pv, stack := vfGuarded(func() { begin, end, err = c09CallSpan() })
 			if pv != nil {
 				res.Violate("span-panic", fmt.Sprintf("counterSpan panicked with weekends=%s: %v\n%.800s", desc, pv, stack), map[string]any{"setting": si, "day": day})
 				continue
